@@ -7,6 +7,8 @@ CONSTANTS
   NewTexts <- MCNewTexts
   FindLen <- MCFindLen
   Nums <- TNums
+  Scaled <- TScaled
+  ScaleJ <- MCScaleJ
   FmtMax <- TFmtMax
 SPECIFICATION Spec
 INVARIANT TypeOK
